@@ -319,6 +319,34 @@ def xliqtLine (s : HistState) (t : List String) : Option String :=
                     pure s!"ok {a.1} {b.1} {da} {db}"
   | _ => none
 
+/-- `H xlock id authMode follow`: lock_position, then one follow-up instruction on the locked position, on the
+    current state (read-only).  Only positions with liquidity can be locked; a locked position cannot have
+    liquidity removed, be closed, re-ranged, repositioned or locked again; adding liquidity, collecting fees
+    and transferring it stay possible. -/
+def xlockLine (s : HistState) (t : List String) : Option String :=
+  match t with
+  | [id, auth, follow] => do
+    let id ← id.toNat?
+    let auth ← auth.toNat?
+    match posGet s.positions id with
+    | none => pure "err NoSuchPosition"
+    | some pos =>
+      if auth = 2 then pure "err AccountNotSigner"
+      else if auth = 1 then pure "err MissingOrInvalidDelegate"
+      else if pos.liq = 0 then pure "err PositionNotLockable"
+      else if follow == "none" then pure "ok none ok"
+      else if follow == "dec" || follow == "close" || follow == "reset" || follow == "repo" || follow == "lock2" then pure s!"ok {follow} rej"
+      else if follow == "inc" then
+        match histStep { s with vaultA := U128_MAX, vaultB := U128_MAX } (.modify id 1 true) with
+        | .error _ => pure "ok inc rej"
+        | .ok _ => pure "ok inc ok"
+      else if follow == "cf" then
+        let cap := U64_MAX / 4
+        if pos.owedA > min s.vaultA cap || pos.owedB > min s.vaultB cap then pure "ok cf rej" else pure "ok cf ok"
+      else if follow == "xfer" then pure "ok xfer ok"
+      else none
+  | _ => none
+
 /-- `H xrew kind ver idx id authMode value feeA(3) feeB(3)`: set_reward_emissions / collect_reward(_v2) /
     collect_protocol_fees(_v2) on the current state (read-only); vaults as the fixture funds them -/
 def xrewLine (s : HistState) (t : List String) : Option String :=
